@@ -1118,16 +1118,9 @@ func doCase(c *gal.Ctx, kind string, g *genCtx, nilLog bool) {
 	if !nilLog {
 		log = &tpmeventlog.TPMEventLog{Events: g.evs}
 	}
-	// --- who will be paired with whom (search hook), asked BEFORE the call: entries left unexplained go to the
-	// digest search of the explainer, which dies in a goroutine when two of its workers find digests at the same
-	// time (finding C13-unhash-concurrent-found-digests; a child process shows it, see probeUnhash).  A log whose
-	// unexplained digests can be found in two or more places of the image is run with a guess limit of 1..2
-	// (at most one candidate is then compared), every other log with the limit drawn for it.
-	preDe, preDc, havePre := g.preAlign(nilLog)
-	if !nilLog && !b.simErr(g.alg) && hashSize(g.alg) >= 0 && g.searchRisk(preDe, preDc, havePre) >= 2 {
-		g.st.MaxDigestRangeGuesses = uint64(1 + g.rng.Intn(2))
-		g.ops = append(g.ops, fmt.Sprintf("digest search limited to %d guess(es): the unexplained digests are found in two or more places of the image (%s)", g.st.MaxDigestRangeGuesses, findUnhash))
-	}
+	// --- the input is recorded before the call: a panic in a goroutine of the digest search of the explainer cannot
+	// be recovered and kills the process (the repaired defect C13-unhash-concurrent-found-digests did that); the
+	// driver then reports this input.  The guess limit is the one drawn for the case, whatever the log.
 	c.Begin("ReproduceEventLog kills the process (panic in a goroutine of its own)", "pkg/bootflow/subsystems/trustchains/tpm/pcrbruteforcer/reproduce_event_log.go",
 		map[string]interface{}{"kind": kind, "boot": b.name, "alg": fmt.Sprint(g.alg), "settings": g.st, "gomaxprocs": g.P, "edit_ops": g.ops, "recorded_log": describeEvents(g.evs)})
 	o := runRepro(b, log, g.alg, g.st, g.P)
@@ -1166,12 +1159,16 @@ func doCase(c *gal.Ctx, kind string, g *genCtx, nilLog bool) {
 				}
 			}
 		}
-	} else if havePre {
+	} else if preDe, preDc, havePre := g.preAlign(nilLog); havePre {
+		// who is paired with whom, from the search hook: to attribute a panic to an entry
 		copy(de, preDe)
 		copy(dc, preDc)
 		haveBitmaps = true
 	}
-	_ = haveBitmaps
+
+	if !nilLog && !b.simErr(g.alg) && hashSize(g.alg) >= 0 && g.searchRisk(de, dc, haveBitmaps) >= 2 {
+		c.Count("digest search: unexplained digests found at two or more places of the image")
+	}
 
 	// --- CombineAsEventLog
 	comb := "OPanic"
@@ -1261,9 +1258,10 @@ func doCase(c *gal.Ctx, kind string, g *genCtx, nilLog bool) {
 	}
 	switch o.Outcome {
 	case "panic":
-		// A panic always fails the property.  A known finding silences exactly its own signature: the panic message
-		// of that defect AND its trigger on an entry that reaches the place (who is paired with whom: the disable
-		// bitmaps of the alignment; without them every pairing is considered).
+		// A panic always fails the property.  The three repaired defects (e99f02a, 60718db, dbffb11) are recognised
+		// by their signature - the panic message AND the trigger on an entry that reaches the place (who is paired
+		// with whom: the disable bitmaps of the alignment; without them every pairing is considered) - only to name
+		// the site in the report: they are ordinary failures.
 		var d20, nilMeas, pastEnd bool
 		d20Len := -1
 		judge := func(e *tpmeventlog.Event, sim int) {
@@ -1325,11 +1323,11 @@ func doCase(c *gal.Ctx, kind string, g *genCtx, nilLog bool) {
 		}
 		switch {
 		case d20 && strings.Contains(o.Msg, fmt.Sprintf("index out of range [%d] with length %d", d20Len, d20Len)):
-			c.OracleFailKnown(idx, findD20, "ReproduceEventLog panics: "+o.Msg, "analyze_unexpected_log_entry.go:rangesToChunks", descr)
+			c.OracleFail(idx, "ReproduceEventLog panics (a pair of the event data is read after as many chunk-making pairs as the paired measurement has references; repaired defect "+findD20+" is back): "+o.Msg, "pkg/bootflow/subsystems/trustchains/tpm/pcrbruteforcer/analyze_unexpected_log_entry.go:rangesToChunks", descr)
 		case nilMeas && strings.Contains(o.Msg, "nil pointer dereference"):
-			c.OracleFailKnown(idx, findNilM, "ReproduceEventLog panics: "+o.Msg, "reproduce_event_log.go:getACMPolicyStatusRefFromMeasurement (m == nil)", descr)
+			c.OracleFail(idx, "ReproduceEventLog panics (TXT registers present, differing digest, simulated event without a measurement; repaired defect "+findNilM+" is back): "+o.Msg, "pkg/bootflow/subsystems/trustchains/tpm/pcrbruteforcer/reproduce_event_log.go:getACMPolicyStatusRefFromMeasurement (m == nil)", descr)
 		case pastEnd && strings.Contains(o.Msg, "artifact *biosimage.BIOSImage, range"):
-			c.OracleFailKnown(idx, findRange, "ReproduceEventLog panics: "+o.Msg, "analyze_unexpected_log_entry.go:tryMeasurement -> types.Reference.RawBytes", descr)
+			c.OracleFail(idx, "ReproduceEventLog panics (a (length,offset) pair of the event data reaches past the image end; repaired defect "+findRange+" is back): "+o.Msg, "pkg/bootflow/subsystems/trustchains/tpm/pcrbruteforcer/analyze_unexpected_log_entry.go:rangesToChunks / tryMeasurement -> types.Reference.RawBytes", descr)
 		default:
 			fail("ReproduceEventLog panics: " + o.Msg)
 		}
@@ -1746,7 +1744,8 @@ func main() {
 	multiRef := boots[6]
 	refBoots := append(append([]*boot{}, good...), multiRef)
 
-	// ---- probes of the known findings (fixed witnesses)
+	// ---- probes: the fixed witnesses of the repaired defects (regression checks: a reproduced probe of a finding that
+	// is no longer open is a violation) and, further down, of the open finding C13-single-corrected-register
 	unhashDone := probeUnhash() // a child process, collected at the end
 	probeD20(c, boots[0])
 	probeNilMeas(c, boots[0])
@@ -1917,6 +1916,46 @@ func main() {
 		pairCase(b, alg, sims[c.Rng.Intn(len(sims))], randKinds(c.Rng, 6), descr, "pair-list-random")
 	}
 
+	// ---- the digest search of the explainer with many guesses on logs whose unexplained digests are found at several
+	// places of the image by several workers at once (the input class of the repaired defect
+	// C13-unhash-concurrent-found-digests: the search died in a goroutine): a copied EV_SEPARATOR entry (digest of four
+	// zero bytes), entries with the digest of a short run of 0x00 / 0xff bytes, one to three of them per log
+	for k := 0; k < c.Scale(40, 400); k++ {
+		b := refBoots[c.Rng.Intn(len(refBoots))]
+		alg := algs[c.Rng.Intn(2)]
+		g := newGen(c, b, alg)
+		g.st.MaxDigestRangeGuesses = uint64(20000 + c.Rng.Intn(1500000))
+		n := 1 + c.Rng.Intn(3)
+		for i := 0; i < n; i++ {
+			pos := bankPos(g.evs, alg)
+			at := pos[c.Rng.Intn(len(pos))]
+			sep := -1
+			for _, q := range pos {
+				if g.evs[q].Type == tpmeventlog.EV_SEPARATOR {
+					sep = q
+				}
+			}
+			if sep >= 0 && c.Rng.Intn(2) == 0 {
+				g.insertAt(sep+1, cloneEvent(g.evs[sep]))
+				g.ops = append(g.ops, fmt.Sprintf("copy of the EV_SEPARATOR entry %d inserted after it", sep))
+				continue
+			}
+			piece := bytes.Repeat([]byte{[]byte{0, 0xff}[c.Rng.Intn(2)]}, []int{4, 8, 16, 20, 32}[c.Rng.Intn(5)])
+			noteFindable(alg, piece)
+			e := &tpmeventlog.Event{PCRIndex: 0, Type: eventTypes[c.Rng.Intn(len(eventTypes))],
+				Digest: &tpmeventlog.Digest{HashAlgo: alg, Digest: hashOf(alg, piece)}}
+			if c.Rng.Intn(2) == 0 {
+				g.insertAt(at, e)
+				g.ops = append(g.ops, fmt.Sprintf("insert entry at %d with the digest of %d bytes %#x", at, len(piece), piece[0]))
+			} else {
+				g.evs[at].Digest.Digest = e.Digest.Digest
+				g.ops = append(g.ops, fmt.Sprintf("entry %d re-digested with the digest of %d bytes %#x", at, len(piece), piece[0]))
+			}
+		}
+		g.ops = append(g.ops, fmt.Sprintf("MaxDigestRangeGuesses %d", g.st.MaxDigestRangeGuesses))
+		doCase(c, "digest-search", g, false)
+	}
+
 	// ---- random edit scripts of 1..4 operations
 	for k := 0; k < c.Scale(700, 6000); k++ {
 		b := refBoots[c.Rng.Intn(len(refBoots))]
@@ -2007,7 +2046,7 @@ func main() {
 	c.Finish("simulated boots on testdata/firmware/fake_intel_firmware.fd (Intel test flow with startup locality + PCR0_DATA + 3 measurements; small register, no locality entry, POST_CODE measurements, PCR1 measurement, two measurements in one step; no TXT registers with a log-only entry; registers without PCR0_DATA; a flow alignLogAndMeasurements rejects; measurements of two and three references, image ranges and hard-coded values mixed, behind EV_POST_CODE / firmware-blob entries); " +
 		"recorded logs = both banks of the simulated log changed by 0..4 edit operations on the PCR0 entries of the chosen bank (insert new / copied entry, delete, swap, move, retype, re-digest with random / zero / image-piece digests, event data with zero, one, two, three (length,offset) pairs in range, swapped, ending at / reaching past the image end, invalid, Fv(guid) descriptions, lists of 0..6 pairs (empty, real, stored offset first, at / past the image end) in any order, entry leaves the bank, truncated digest, PCR0_DATA re-digested with ACM_POLICY_STATUS decremented inside / at / above the window or with 1-2 flipped bits); " +
 		"pair lists: every list of empty / real pairs up to three pairs (thorough: four) as the event data of every simulated entry, the entry only re-digested (retyped to a parsed type with DisabledEventsMaxDistance 0 where needed) so that it stays paired with its measurement of one, two or three references, plus random longer lists after descriptions; " +
-		"sweeps: every decrement 0..max(limit,GOMAXPROCS)+2 for limits 0..16 and GOMAXPROCS 1..16, bit flips with the combinatorial strategy on/off; settings drawn per case (linear limit incl. negative, combinatorial 0..2, DisabledEventsMaxDistance 0..4, MaxDigestRangeGuesses 1..300, 1..2 when the digests left unexplained are found in two or more places of the image: finding C13-unhash-concurrent-found-digests, whose witness runs in a child process); SHA1 and SHA256 (+ SHA384, unknown and null algorithm, nil and empty log); " +
+		"sweeps: every decrement 0..max(limit,GOMAXPROCS)+2 for limits 0..16 and GOMAXPROCS 1..16, bit flips with the combinatorial strategy on/off; settings drawn per case (linear limit incl. negative, combinatorial 0..2, DisabledEventsMaxDistance 0..4, MaxDigestRangeGuesses 1..300; 20000..1520000 on the digest-search logs, whose unexplained digests (copied EV_SEPARATOR entry, runs of 0x00 / 0xff bytes) are found at many places of the image by several workers at once - the input class of the repaired defect C13-unhash-concurrent-found-digests, whose witness also runs in a child process as a regression check); SHA1 and SHA256 (+ SHA384, unknown and null algorithm, nil and empty log); " +
 		"hook cases: eventAndMeasurementsDistance on balanced/unbalanced bitmaps and short digests, bruteForceAlignedEventLogs on the generated logs; non-trivial = at least one edit operation; distinct = distinct Gallina literal")
 }
 
@@ -2036,8 +2075,8 @@ func probeD20(c *gal.Ctx, b *boot) {
 	g.evs[at].Digest.Digest[0] ^= 1
 	g.evs[at].Data = append(pair16(16, 0xffff0000), pair16(16, 0xffff1000)...)
 	o := runRepro(b, &tpmeventlog.TPMEventLog{Events: g.evs}, g.alg, g.st, g.P)
-	c.Probe(findD20, o.Outcome == "panic" && strings.Contains(o.Msg, "index out of range [1] with length 1"),
-		"ReproduceEventLog on the simulated log whose firmware-blob entry got a wrong digest and event data with two (length,offset) pairs: "+o.Outcome+" "+o.Msg)
+	c.Probe(findD20, o.Outcome == "panic",
+		"regression check of the repaired defect (e99f02a): ReproduceEventLog (fake Intel image, test flow, SHA1) on the simulated log whose firmware-blob entry got a wrong digest (byte 0 flipped) and the event data le64(16) le64(0xffff0000) le64(16) le64(0xffff1000), i.e. two (length,offset) pairs over a measurement of one reference: "+o.Outcome+" "+o.Msg)
 	g.ops = []string{"probe D20: firmware-blob entry re-digested, two (length,offset) pairs in its data"}
 	doCase(c, "probe-d20", g, false)
 }
@@ -2051,8 +2090,8 @@ func probeNilMeas(c *gal.Ctx, b *boot) {
 		}
 	}
 	o := runRepro(b, &tpmeventlog.TPMEventLog{Events: g.evs}, g.alg, g.st, g.P)
-	c.Probe(findNilM, o.Outcome == "panic" && strings.Contains(o.Msg, "nil pointer dereference"),
-		"ReproduceEventLog on the simulated log whose startup-locality (EV_NO_ACTION) entry carries a non-zero digest: "+o.Outcome+" "+o.Msg)
+	c.Probe(findNilM, o.Outcome == "panic",
+		"regression check of the repaired defect (60718db): ReproduceEventLog (fake Intel image, test flow, TXT registers present, SHA1) on the simulated log whose startup-locality (EV_NO_ACTION) entry has digest byte 0 set to 1: "+o.Outcome+" "+o.Msg)
 	g.ops = []string{"probe: startup-locality entry re-digested"}
 	doCase(c, "probe-nil-measurement", g, false)
 }
@@ -2093,16 +2132,18 @@ func probeRange(c *gal.Ctx, b *boot) {
 	g.evs[at].Digest.Digest[0] ^= 1
 	g.evs[at].Data = pair16(0x20, 0xfffffff0)
 	o := runRepro(b, &tpmeventlog.TPMEventLog{Events: g.evs}, g.alg, g.st, g.P)
-	c.Probe(findRange, o.Outcome == "panic" && strings.Contains(o.Msg, "artifact *biosimage.BIOSImage, range"),
-		"ReproduceEventLog on the simulated log whose firmware-blob entry got a wrong digest and one (length,offset) pair reaching 16 bytes past the image end: "+o.Outcome+" "+o.Msg)
+	c.Probe(findRange, o.Outcome == "panic",
+		"regression check of the repaired defect (dbffb11): ReproduceEventLog (fake Intel image of 64 KiB, test flow, SHA1) on the simulated log whose firmware-blob entry got a wrong digest (byte 0 flipped) and the event data le64(0x20) le64(0xfffffff0), one (length,offset) pair reaching 16 bytes past the image end: "+o.Outcome+" "+o.Msg)
 	g.ops = []string{"probe: firmware-blob entry re-digested, pair (0x20 bytes at 0xfffffff0)"}
 	doCase(c, "probe-range", g, false)
 }
 
-// ---------------------------------------------------------------- the digest search of the explainer (finding C13-unhash-concurrent-found-digests)
+// ---------------------------------------------------------------- the digest search of the explainer (repaired defect C13-unhash-concurrent-found-digests, d07fe59)
 
-// The witness of the finding panics in a goroutine of the search, which cannot be recovered and kills the process:
-// it runs in a child process (this binary with the variable set).
+// Regression check.  The defect: the check function of the third-party digest search removed a found digest from a
+// list shared by all worker goroutines without a lock; two workers finding a digest at the same time panicked in a
+// goroutine, which cannot be recovered and kills the process.  So the witness runs in a child process (this binary
+// with the variable set); a crash there is a violation.
 const unhashProbeEnv = "C13_UNHASH_WITNESS"
 const unhashWitnessTime = 6 * time.Second
 
@@ -2151,8 +2192,11 @@ func probeUnhash() func(c *gal.Ctx) {
 			<-done
 		}
 		s := string(out)
-		crashed := strings.Contains(s, "unhash.FindDigestSourceAllDigests") && strings.Contains(s, "panic: runtime error: index out of range")
-		msg := "no crash this time"
+		crashed := strings.Contains(s, "panic: ") || strings.Contains(s, "fatal error: ")
+		msg := "no crash"
+		if i := strings.Index(s, "fatal error: "); crashed && i >= 0 {
+			msg = "the process died: " + strings.SplitN(s[i:], "\n", 2)[0]
+		}
 		if i := strings.Index(s, "panic: "); crashed && i >= 0 {
 			msg = s[i:]
 			if j := strings.IndexByte(msg, '\n'); j >= 0 {
@@ -2160,6 +2204,6 @@ func probeUnhash() func(c *gal.Ctx) {
 			}
 			msg = "the process died in a goroutine of the digest search: " + msg
 		}
-		c.Probe(findUnhash, crashed, fmt.Sprintf("child process: ReproduceEventLog (SHA1, default settings, 2000000 guesses) on the simulated log with a second copy of the EV_SEPARATOR entry, repeated for up to %s: %s", unhashWitnessTime, msg))
+		c.Probe(findUnhash, crashed, fmt.Sprintf("regression check of the repaired defect (d07fe59): child process: ReproduceEventLog (fake Intel image, test flow, SHA1, default settings, MaxDigestRangeGuesses 2000000) on the simulated log with a second copy of the EV_SEPARATOR entry, repeated for up to %s: %s", unhashWitnessTime, msg))
 	}
 }
